@@ -523,7 +523,8 @@ class Unilateral(
             .reset_index(drop=True)
         )
 
-        data_modalities = set(patient_data.columns.levels[0]) - {"patient", "tumor"}
+        present_top_levels = set(patient_data.columns.get_level_values(0))
+        data_modalities = present_top_levels - {"patient", "tumor"}
         for modality in data_modalities:
             if side not in patient_data[modality]:
                 warnings.warn(
